@@ -317,7 +317,10 @@ def global_rules(sm, rep, tier):
         env['eps'] = eps
         cons = f"utilities.fluxLimiter[{name}]"
         ret = inline_helpers(ret, helpers)
-        unknown = [ast.unparse(n.func) for n in ast.walk(ret) if isinstance(n, ast.Call) and not (isinstance(n.func, ast.Attribute) and isinstance(n.func.value, ast.Name) and n.func.value.id in ('np', 'numpy'))]
+        import builtins as _bi
+        # a python builtin or a module function (min, max, math.fabs) is a known construct, judged by F3; only a call of a name
+        # that is neither is not analysable
+        unknown = [ast.unparse(n.func) for n in ast.walk(ret) if isinstance(n, ast.Call) and isinstance(n.func, ast.Name) and not hasattr(_bi, n.func.id)]
         if unknown:
             raise AnalysisError(f"fluxLimiter[{name}] calls {unknown[0]}, which is neither numpy nor a local helper of fluxLimiter: not analysable")
         bad = elementwise_only(ret)
